@@ -33,11 +33,18 @@ def run(case):
         cls.add("initial_state_halting")
     for w in ws:
         decided = None
-        for k in sorted(ks):
+        # budgets are queried on the same object in the generated (not sorted) order, some of them twice
+        order = list(ks) + [ks[0]]
+        answers = {}
+        for k in order:
             want, trace = RT.run(spec, w, k)
             got = lib(tm_accepts_word, T, w, k)
             if got is not want:
-                raise Fail("verdict", "tm_accepts_word(%r, max_steps=%d) = %r, Sipser semantics gives %r" % (w, k, got, want), word=w, k=k)
+                raise Fail("verdict", "tm_accepts_word(%r, max_steps=%d) = %r, Sipser semantics gives %r (budgets queried so far on this object: %r)" % (w, k, got, want, order[:order.index(k) + 1]), word=w, k=k)
+            answers[k] = got
+        for k in sorted(ks):
+            want, trace = RT.run(spec, w, k)
+            got = answers[k]
             if decided is not None and got is not decided:
                 raise Fail("verdict_not_monotone", "verdict for %r changes from %r to %r with a larger budget %d" % (w, decided, got, k))
             if got is not None:
